@@ -232,6 +232,10 @@ def load_hdf5(path, meta_only=False):
             dataset_dict = {}
             for dkey in h5["data"]:
                 dset = h5["data"][dkey]
+                if "path" not in dset.attrs:
+                    # (left behind by a failed `save_hdf5`; no analysis
+                    # refers to it before a later save has completed it)
+                    continue
                 dbin = dset[...]
                 name = dkey + "_" + pathlib.Path(dset.attrs["path"]).name
                 dpath = pathlib.Path(tdir) / name
@@ -318,9 +322,16 @@ def save_hdf5(h5path, indent, user_rate, user_name, user_comment, h5mode="a"):
                 **dkw
             )
             meas.attrs["path"] = str(indent.path)
+        elif "path" not in data[dhash].attrs:
+            # complete a dataset that a failed `save_hdf5` left behind
+            data[dhash].attrs["path"] = str(indent.path)
         # store indentation data along with the user rate
         ana = h5.require_group("analysis")
         idd = "{}_{}".format(dhash, indent.enum)
+        if idd in ana and "user rate" not in ana[idd].attrs:
+            # An incomplete group (the user rate is written last) stems
+            # from a failed `save_hdf5`; start over.
+            del ana[idd]
         if idd in ana:
             # Only allow overriding of user data if fit matches.
             # Otherwise, the rating might be wrong.
